@@ -257,6 +257,9 @@ static void worker (size_t from, const char* scratch)
 	}
 	sh->done = 1;
 	fflush(proto);
+#if defined(HAWK_VERIF_COVERAGE)
+	{ extern void __gcov_dump (void); __gcov_dump(); } /* tools/coverage.py: _exit() skips the counter flush */
+#endif
 	_exit(0);
 }
 
